@@ -412,28 +412,39 @@ Section Timestamp.
   Variable ujson : bytes -> option ts.
   Variable fmt : ts -> bytes.
   (* law of the layout in use: a timestamp the parser produced, formatted and quoted, parses back *)
-  Hypothesis ts_roundtrip : forall s t, ujson s = Some t -> fmt t <> [] /\ ujson (quote (fmt t)) = Some t.
+  Hypothesis ts_roundtrip : forall s t, ujson s = Some t -> ts_check_valid t = true ->
+                                        fmt t <> [] /\ ujson (quote (fmt t)) = Some t.
 
   Lemma timestamp_roundtrip s ot :
     parse_timestamp quote ujson s = Ok ot ->
     parse_timestamp quote ujson (marshal_timestamp fmt ot) = Ok ot.
   Proof.
     unfold parse_timestamp. destruct (nonempty s) eqn:N; cbn [negb].
-    - destruct (ujson (quote s)) as [t|] eqn:E1.
-      + intros H; inversion H; subst. cbn [marshal_timestamp].
-        destruct (ts_roundtrip _ _ E1) as [Hne Hp]. apply nonempty_true in Hne. rewrite Hne. cbn [negb].
-        rewrite Hp. reflexivity.
-      + destruct (ujson s) as [t|] eqn:E2; [|discriminate].
-        intros H; inversion H; subst. cbn [marshal_timestamp].
-        destruct (ts_roundtrip _ _ E2) as [Hne Hp]. apply nonempty_true in Hne. rewrite Hne. cbn [negb].
-        rewrite Hp. reflexivity.
+    - set (parsed := match ujson (quote s) with Some t => Some t | None => ujson s end).
+      assert (forall t, parsed = Some t -> exists s', ujson s' = Some t) as Src.
+      { unfold parsed. intros t. destruct (ujson (quote s)) eqn:E1; intros H; inversion H; subst; eauto. }
+      destruct parsed as [t|]; [|discriminate].
+      destruct (ts_check_valid t) eqn:V; [|discriminate].
+      intros H; inversion H; subst. cbn [marshal_timestamp].
+      destruct (Src t eq_refl) as [s' E].
+      destruct (ts_roundtrip _ _ E V) as [Hne Hp]. apply nonempty_true in Hne. rewrite Hne. cbn [negb].
+      rewrite Hp, V. reflexivity.
     - intros H; inversion H; subst. reflexivity.
   Qed.
 
   Lemma timestamp_total s : parse_timestamp quote ujson s <> Panic.
   Proof.
     unfold parse_timestamp. destruct (negb (nonempty s)); [discriminate|].
-    destruct (ujson (quote s)); [discriminate|]. destruct (ujson s); discriminate.
+    destruct (match ujson (quote s) with Some t => Some t | None => ujson s end) as [t|]; [|discriminate].
+    destruct (ts_check_valid t); discriminate.
+  Qed.
+
+  (* only representable timestamps are ever returned *)
+  Lemma timestamp_valid s t : parse_timestamp quote ujson s = Ok (Some t) -> ts_check_valid t = true.
+  Proof.
+    unfold parse_timestamp. destruct (negb (nonempty s)); [discriminate|].
+    destruct (match ujson (quote s) with Some t => Some t | None => ujson s end) as [t'|]; [|discriminate].
+    destruct (ts_check_valid t') eqn:V; [|discriminate]. intros H; inversion H; subst; exact V.
   Qed.
 End Timestamp.
 
